@@ -1659,6 +1659,14 @@ class MatrixBase:
         """Duplicate this matrix."""
         raise NotImplementedError
 
+    def _new_copy(self) -> Self:
+        """Return a new matrix of our class with the same values, even if frozen (where copy() is self)."""
+        return self._from_raw(
+            self._aa, self._ab, self._ac,
+            self._ba, self._bb, self._bc,
+            self._ca, self._cb, self._cc,
+        )
+
     @classmethod
     def from_pitch(cls, pitch: float) -> Self:
         """Return the matrix representing a pitch rotation (Y axis)."""
@@ -2055,12 +2063,13 @@ class MatrixBase:
         vec._z = (x * self._ac) + (y * self._bc) + (z * self._cc)
 
     def __matmul__(self, other: 'MatrixBase | AngleBase') -> Self:
+        # self.copy() is self for a FrozenMatrix, which _mat_mul() would then modify.
         if isinstance(other, MatrixBase):
-            mat = self.copy()
+            mat = self._new_copy()
             mat._mat_mul(other)
             return mat
         elif isinstance(other, AngleBase):
-            mat = self.copy()
+            mat = self._new_copy()
             mat._mat_mul(Py_Matrix.from_angle(other))
             return mat
         else:
@@ -2094,7 +2103,7 @@ class MatrixBase:
             cls = type(other)
             return mat._to_angle(cls.__new__(cls))
         elif isinstance(other, MatrixBase):
-            mat = other.copy()
+            mat = other._new_copy()
             mat._mat_mul(self)
             return mat
         else:
